@@ -167,7 +167,7 @@ Proof.
 Qed.
 
 Ltac expose :=
-  unfold addf, setf, setz, addz, setinc, setpfq, upd2, fC, fS, fDEC, fU, fCF, fM, fA, fTG, fPH, fXC, fLI, fRDY in *;
+  unfold addf, setf, setz, addz, setinc, setpfq, upd2, fC, fS, fDEC, fU, fCF, fM, fA, fTG, fPH, fXC, fLI, fRDY, fKIND in *;
   cbn [f z inc pfq Z.eqb Pos.eqb andb] in *.
 
 Ltac bcase x d :=
@@ -369,7 +369,8 @@ Qed.
 Lemma ready_only_if_room_l c x d t n y :
   step c x (LEjecting d t n) = Some y ->
   f y fRDY d = 1 /\ f y fTG d = t /\
-  (t <> PF -> isdev c t = true /\ Z.of_nat (length (others d (inc x t))) < cap c t - f x fC t).
+  (t <> PF -> isdev c t = true /\ Z.of_nat (length (others d (inc x t))) < cap c t - f x fC t
+              /\ (f x fKIND t = 1 -> f x fPH t < cap c t)).
 Proof.
   cbn [step]. unfold guard. intros H.
   destruct (negb (isdev c d && ((t =? PF) || isdev c t))) eqn:E; [discriminate|].
@@ -380,11 +381,12 @@ Proof.
     + rewrite f_addz. rewrite f_setf_otherfield by reflexivity. apply f_setf_same.
     + intros N. contradiction.
   - cbn [orb] in E.
-    destruct (Z.of_nat (length (others d (inc x t))) <? cap c t - f x fC t) eqn:R; [|discriminate].
-    inversion H; subst y; clear H. apply Z.ltb_lt in R.
+    match type of H with (if ?g then _ else _) = _ => destruct g eqn:R end; [|discriminate].
+    inversion H; subst y; clear H. apply andb_true_iff in R as [R R2]. apply Z.ltb_lt in R.
     split; [apply f_setf_same|]. split.
     + rewrite f_setf_otherfield by reflexivity. apply f_setf_same.
-    + intros _. split; assumption.
+    + intros _. split; [assumption|]. split; [assumption|].
+      intros K. rewrite K in R2. cbn in R2. apply Z.ltb_lt in R2. assumption.
 Qed.
 
 Lemma ready_flag_only_from_ejecting_l c x l y d :
@@ -419,6 +421,90 @@ Proof.
                    | rewrite f_setf_otherdev in Y by exact Q ];
       apply N; exact Y.
 Qed.
+
+(* ball search *)
+Lemma search_pulse_guard_l c x d y :
+  step c x (LSearchPulse d) = Some y -> y = x /\ f x fS d = IDLE /\ f x fC d = 0.
+Proof.
+  cbn [step]. unfold guard. intros H.
+  match type of H with (if ?g then _ else _) = _ => destruct g eqn:G end; [|discriminate].
+  inversion H; subst y; clear H. boolfacts. auto.
+Qed.
+
+Lemma give_up_l c x dk db da y :
+  step c x (LGiveUp dk db da) = Some y ->
+  dk = z x zB /\ db = z x zB /\ da = z x zB /\ 0 <= z x zB /\
+  z y zB = 0 /\ z y zK = z x zK - z x zB /\ z y zPA = z x zPA - z x zB /\
+  z y zTOT - z y zK = (z x zTOT - z x zK) + z x zB /\ z y zLOOSE = z x zLOOSE /\ f y = f x.
+Proof.
+  cbn [step]. unfold guard. intros H.
+  match type of H with (if ?g then _ else _) = _ => destruct g eqn:G end; [|discriminate].
+  inversion H; subst y; clear H. boolfacts. subst.
+  repeat split; norm; try lia; reflexivity.
+Qed.
+
+(* num_balls_known moves only when a new ball is found (+1) or the ball search gives up *)
+Lemma known_only_changes_l c x l y :
+  step c x l = Some y -> z y zK <> z x zK -> l = LFoundNew \/ exists dk db da, l = LGiveUp dk db da.
+Proof.
+  intros H N.
+  destruct l; try (exfalso; apply N; clear N;
+    cbn [step] in H; unfold guard in H; split_ifs H; inversion H; subst y; clear H; norm; reflexivity).
+  - left; reflexivity.
+  - right; eauto.
+Qed.
+
+(* BallSearch.give_up WITHOUT the fix (playfield.available_balls = 0): a ball promised to the playfield (eject chain
+   set up, not yet arrived) loses its available ball *)
+Definition cfgG : cfg := [(0, 2); (1, 1)].
+Definition dsG : list (list Z) := [[0; 1; 1; 0; 1]; [1; 0; 0; 0; 0]].
+Definition pfG : list Z := [1; 1; 0; 2; 1].
+Definition preG : list label := [LKind 0 1; LKind 1 1; LChain 0 9; LSnap [[0; 1; 0; 0; 0]; [1; 0; 0; 0; 0]] [1; 2; 0; 2]].
+Definition postG : list label :=
+  [LGiveUp 1 1 1; LSnap [[0; 1; 0; 0; 0]; [1; 0; 0; 0; 0]] [0; 1; 0; 1]; LTruth [[0; 1]; [1; 0]] 1].
+
+Definition availb (c : cfg) (x : st) : bool :=
+  sumf (f x fA) (devs c) + z x zPA + z x zQ + z x zW =? z x zK + z x zXS.
+
+Lemma witnessG :
+  match init cfgG dsG pfG with
+  | Some x0 => match run_from cfgG x0 preG with
+               | Some m => availb cfgG m && negb (availb cfgG (giveup_unfixed m))
+                           && (sumf (f (giveup_unfixed m) fC) (devs cfgG) + z (giveup_unfixed m) zB
+                               =? z (giveup_unfixed m) zK)
+               | None => false end
+  | None => false end = true.
+Proof. vm_compute. reflexivity. Qed.
+
+Lemma give_up_run_accepted_l : accepts cfgG dsG pfG (preG ++ postG) = true.
+Proof. vm_compute. reflexivity. Qed.
+
+Lemma give_up_zeroing_available_refuted_l :
+  exists c ds pf pre m,
+    NoDup (devs c) /\ reach c ds pf pre m /\ avail_inv c m /\ ~ avail_inv c (giveup_unfixed m) /\
+    sumf (f (giveup_unfixed m) fC) (devs c) + z (giveup_unfixed m) zB = z (giveup_unfixed m) zK.
+Proof.
+  exists cfgG, dsG, pfG, preG.
+  pose proof witnessG as W.
+  destruct (init cfgG dsG pfG) as [x0|] eqn:Ei; [|discriminate].
+  destruct (run_from cfgG x0 preG) as [m|] eqn:Er; [|discriminate].
+  exists m.
+  apply andb_true_iff in W as [W W3]. apply andb_true_iff in W as [W1 W2].
+  apply negb_true_iff in W2. unfold availb in W1, W2. apply Z.eqb_eq in W1, W3. apply Z.eqb_neq in W2.
+  assert (ND : NoDup (devs cfgG)) by (cbn; repeat constructor; cbn; intuition lia).
+  assert (R : reach cfgG dsG pfG preG m) by (exists x0; split; [exact Ei | exact Er]).
+  repeat split; try assumption.
+Qed.
+
+(* a source is not announced ready towards a switch-counted target whose seats are all physically taken, even if the
+   target's own count still shows room (the ball that filled it has not been counted yet) *)
+Definition cfgP : cfg := [(0, 2); (1, 2)].
+Definition dsP : list (list Z) := [[0; 1; 1; 0; 1]; [1; 1; 0; 0; 2]].
+Definition pfP : list Z := [1; 2; 0; 3; 0].
+Definition lsP (k : Z) : list label := [LKind 1 k; LState 0 WTR; LAttempt 0 1 0; LState 0 EJECTING; LEjecting 0 1 0].
+
+Lemma full_target_rejected_l : c04_run (cfgP, (dsP, pfP), lsP 1) = 4 /\ c04_run (cfgP, (dsP, pfP), lsP 0) = -1.
+Proof. vm_compute. split; reflexivity. Qed.
 
 Lemma chain_needs_available_l c x s t y : step c x (LChain s t) = Some y -> 1 <= f x fA s.
 Proof.
